@@ -4,8 +4,8 @@ use core::{
 };
 
 use dashu_base::{
-    Approximation::*, BitTest, ConversionError, DivRemEuclid, EstimatedLog2, FloatEncoding, Sign,
-    Signed,
+    Approximation::*, BitTest, ConversionError, DivRem, DivRemEuclid, EstimatedLog2, FloatEncoding,
+    Sign, Signed, UnsignedAbs,
 };
 use dashu_int::{IBig, UBig, Word};
 
@@ -429,15 +429,7 @@ impl<R: Round, const B: Word> FBig<R, B> {
             return Inexact(self.sign() * f32::INFINITY, Rounding::NoOp);
         }
 
-        let context = Context::<R>::new(24);
-        if B != 2 {
-            let rounded: Rounded<Repr<2>> = context.convert_base(self.repr.clone());
-            rounded.and_then(|v| v.into_f32_internal())
-        } else {
-            context
-                .repr_round_ref(&self.repr)
-                .and_then(|v| v.into_f32_internal())
-        }
+        self.repr.to_f32_internal::<R>()
     }
 
     /// Convert the float number to [f64] with [HalfEven] rounding mode regardless of the mode associated with this number.
@@ -460,15 +452,7 @@ impl<R: Round, const B: Word> FBig<R, B> {
             return Inexact(self.sign() * f64::INFINITY, Rounding::NoOp);
         }
 
-        let context = Context::<HalfEven>::new(53);
-        if B != 2 {
-            let rounded: Rounded<Repr<2>> = context.convert_base(self.repr.clone());
-            rounded.and_then(|v| v.into_f64_internal())
-        } else {
-            context
-                .repr_round_ref(&self.repr)
-                .and_then(|v| v.into_f64_internal())
-        }
+        self.repr.to_f64_internal::<HalfEven>()
     }
 }
 
@@ -553,30 +537,117 @@ impl<R: Round> Context<R> {
     }
 }
 
-impl<const B: Word> Repr<B> {
-    // this method requires that the representation is already rounded to 24 binary bits
-    fn into_f32_internal(self) -> Rounded<f32> {
-        assert!(B == 2);
-        debug_assert!(self.is_finite());
-        debug_assert!(self.significand.bit_len() <= 24);
+/// Result of rounding a float to a binary format with a limited exponent range
+enum BinaryParts {
+    /// `mantissa * 2^exponent`, together with the rounding that produced it
+    Value(Rounded<(IBig, isize)>),
+    /// the magnitude is beyond the largest representable value
+    Overflow,
+}
 
-        let sign = self.sign();
-        let man24: i32 = self.significand.try_into().unwrap();
-        if self.exponent >= 128 {
-            // max f32 = 2^128 * (1 - 2^-24)
-            match sign {
+impl<const B: Word> Repr<B> {
+    /// Round the (finite) number to `mantissa * 2^exponent`, where the mantissa has at most `mant_bits` bits
+    /// and the exponent is at least `min_exp` (so that subnormal numbers get fewer bits). The number
+    /// is rounded exactly once, under the rounding mode `R`. If the rounded magnitude reaches
+    /// `2^max_top`, [BinaryParts::Overflow] is returned.
+    fn to_binary_parts<R: Round>(&self, mant_bits: usize, min_exp: isize, max_top: isize) -> BinaryParts {
+        debug_assert!(self.is_finite());
+        if self.significand.is_zero() {
+            return BinaryParts::Value(Exact((IBig::ZERO, 0)));
+        }
+
+        // shortcuts for numbers far away from the representable range (they prevent huge powers)
+        let sign = self.significand.sign();
+        let (log2_lb, log2_ub) = self.log2_bounds();
+        if log2_lb > (max_top + 1) as f32 {
+            return BinaryParts::Overflow;
+        } else if log2_ub < (min_exp - 2) as f32 {
+            // |self| < 2^(min_exp - 2), i.e. less than a quarter of the smallest unit
+            let adjust = R::round_ratio(&IBig::ZERO, sign * IBig::ONE, &IBig::from(4u8));
+            return BinaryParts::Value(Inexact((IBig::ZERO + adjust, min_exp), adjust));
+        }
+
+        // |self| = num / den exactly
+        let (num, den) = if self.exponent >= 0 {
+            (
+                shl_digits::<B>(&self.significand, self.exponent as usize).unsigned_abs(),
+                UBig::ONE,
+            )
+        } else {
+            (
+                self.significand.clone().unsigned_abs(),
+                shl_digits::<B>(&IBig::ONE, (-self.exponent) as usize).unsigned_abs(),
+            )
+        };
+
+        // find the exponent of the top bit: 2^top <= num / den < 2^(top + 1)
+        let e0 = num.bit_len() as isize - den.bit_len() as isize;
+        let ge = if e0 >= 0 {
+            num >= (&den) << e0 as usize
+        } else {
+            (&num) << (-e0) as usize >= den
+        };
+        let top = if ge { e0 } else { e0 - 1 };
+
+        // the exponent of the unit in the last place of the result
+        let ulp_exp = (top - mant_bits as isize + 1).max(min_exp);
+        let (num, den) = if ulp_exp >= 0 {
+            (num, den << ulp_exp as usize)
+        } else {
+            (num << (-ulp_exp) as usize, den)
+        };
+        let (q, r) = num.div_rem(&den);
+        let q = sign * q;
+        let rounded = if r.is_zero() {
+            Exact(q)
+        } else {
+            let adjust = R::round_ratio(&q, sign * r, &den.into());
+            Inexact(q + adjust, adjust)
+        };
+
+        // the rounding can carry into a new bit, check the range afterwards
+        if rounded.value_ref().bit_len() as isize + ulp_exp > max_top {
+            BinaryParts::Overflow
+        } else {
+            BinaryParts::Value(rounded.map(|man| (man, ulp_exp)))
+        }
+    }
+
+    /// Convert to [f32] with a single rounding under the mode `R`.
+    pub(crate) fn to_f32_internal<R: Round>(&self) -> Rounded<f32> {
+        // max f32 = 2^128 * (1 - 2^-24), min f32 = 2^-149
+        match self.to_binary_parts::<R>(24, -149, 128) {
+            BinaryParts::Overflow => match self.sign() {
                 Sign::Positive => Inexact(f32::INFINITY, Rounding::AddOne),
                 Sign::Negative => Inexact(f32::NEG_INFINITY, Rounding::SubOne),
-            }
-        } else if self.exponent < -149 - 24 {
-            // min f32 = 2^-149
-            Inexact(sign * 0f32, Rounding::NoOp)
-        } else {
-            match f32::encode(man24, self.exponent as i16) {
-                Exact(v) => Exact(v),
-                // this branch only happens when the result underflows
-                Inexact(v, _) => Inexact(v, Rounding::NoOp),
-            }
+            },
+            BinaryParts::Value(rounded) => rounded.map(|(man, exp)| {
+                if man.is_zero() {
+                    self.sign() * 0f32
+                } else {
+                    // the mantissa and exponent are in the range of f32 now, the encoding is exact
+                    f32::encode(man.try_into().unwrap(), exp as i16).value()
+                }
+            }),
+        }
+    }
+
+    /// Convert to [f64] with a single rounding under the mode `R`.
+    pub(crate) fn to_f64_internal<R: Round>(&self) -> Rounded<f64> {
+        // max f64 = 2^1024 × (1 − 2^−53), min f64 = 2^-1074
+        match self.to_binary_parts::<R>(53, -1074, 1024) {
+            BinaryParts::Overflow => match self.sign() {
+                Sign::Positive => Inexact(f64::INFINITY, Rounding::AddOne),
+                Sign::Negative => Inexact(f64::NEG_INFINITY, Rounding::SubOne),
+            },
+            BinaryParts::Value(rounded) => rounded.map(|(man, exp)| {
+                if man.is_zero() {
+                    self.sign() * 0f64
+                } else {
+                    // the mantissa and exponent are in the range of f64 now, the encoding is exact
+                    f64::encode(man.try_into().unwrap(), exp as i16).value()
+                }
+            }),
         }
     }
 
@@ -601,41 +672,7 @@ impl<const B: Word> Repr<B> {
             return Inexact(self.sign() * f32::INFINITY, Rounding::NoOp);
         }
 
-        let context = Context::<HalfEven>::new(24);
-        if B != 2 {
-            let rounded: Rounded<Repr<2>> = context.convert_base(self.clone());
-            rounded.and_then(|v| v.into_f32_internal())
-        } else {
-            context
-                .repr_round_ref(self)
-                .and_then(|v| v.into_f32_internal())
-        }
-    }
-
-    // this method requires that the representation is already rounded to 53 binary bits
-    fn into_f64_internal(self) -> Rounded<f64> {
-        assert!(B == 2);
-        debug_assert!(self.is_finite());
-        debug_assert!(self.significand.bit_len() <= 53);
-
-        let sign = self.sign();
-        let man53: i64 = self.significand.try_into().unwrap();
-        if self.exponent >= 1024 {
-            // max f64 = 2^1024 × (1 − 2^−53)
-            match sign {
-                Sign::Positive => Inexact(f64::INFINITY, Rounding::AddOne),
-                Sign::Negative => Inexact(f64::NEG_INFINITY, Rounding::SubOne),
-            }
-        } else if self.exponent < -1074 - 53 {
-            // min f64 = 2^-1074
-            Inexact(sign * 0f64, Rounding::NoOp)
-        } else {
-            match f64::encode(man53, self.exponent as i16) {
-                Exact(v) => Exact(v),
-                // this branch only happens when the result underflows
-                Inexact(v, _) => Inexact(v, Rounding::NoOp),
-            }
-        }
+        self.to_f32_internal::<HalfEven>()
     }
 
     /// Convert the float number representation to a [f64] with the default IEEE 754 rounding mode.
@@ -659,15 +696,7 @@ impl<const B: Word> Repr<B> {
             return Inexact(self.sign() * f64::INFINITY, Rounding::NoOp);
         }
 
-        let context = Context::<HalfEven>::new(53);
-        if B != 2 {
-            let rounded: Rounded<Repr<2>> = context.convert_base(self.clone());
-            rounded.and_then(|v| v.into_f64_internal())
-        } else {
-            context
-                .repr_round_ref(self)
-                .and_then(|v| v.into_f64_internal())
-        }
+        self.to_f64_internal::<HalfEven>()
     }
 
     /// Convert the float number representation to a [IBig].
